@@ -31,7 +31,7 @@ class World:
     """kinds: dict test name -> kind; tests named <layer letter lower><i>;
     'u*' tests have no layer (unit tests)."""
 
-    def __init__(self, kinds, b_on_a=False, su=None, td=None, imp=False, noise=False, order=None, hooks='st'):
+    def __init__(self, kinds, b_on_a=False, su=None, td=None, imp=False, noise=False, order=None, hooks='st', levels=None, nest=False):
         self.kinds = dict(kinds)
         self.su = su or {}
         self.td = td or {}
@@ -51,11 +51,16 @@ class World:
         names = order or sorted(kinds)
         for n in names:
             ly = self.layers.get(n[0].upper())
-            self.tests.append(W.mk_test(n, kinds[n], layer=ly, out=out))
+            self.tests.append(W.mk_test(n, kinds[n], layer=ly, out=out, level=(levels or {}).get(n)))
         self.names = names
+        self.nest = nest
 
     def suites(self):
-        s = [unittest.TestSuite(self.tests)]
+        if self.nest:       # the same tests, nested to depth 3 in two top-level suites
+            half = len(self.tests) // 2
+            s = [unittest.TestSuite([unittest.TestSuite([unittest.TestSuite(self.tests[:half])])]), unittest.TestSuite(self.tests[half:])]
+        else:
+            s = [unittest.TestSuite(self.tests)]
         if self.imp:
             try:
                 raise ImportError('No module named broken')
